@@ -90,6 +90,12 @@ theorem grid_torus_adjacent_iff (p : Bool) (ds : List Nat) (hne : ds ≠ []) (h1
       rw [coords_getD _ _ _ hj, coords_getD _ _ _ hj]
       exact h3 j hj hne'
 
+example : ∃ S, gridSimple [2, 3] false = .ok S ∧ (1, 3) ∈ S.edgeset ∧ (1, 4) ∉ S.edgeset := by
+  obtain ⟨S, h1, _⟩ := grid_torus_spec false [2, 3] (by simp) (by simp)
+  refine ⟨S, h1, ?_, ?_⟩
+  · rw [grid_torus_adjacent_iff false [2, 3] (by simp) (by simp) h1]; decide
+  · rw [grid_torus_adjacent_iff false [2, 3] (by simp) (by simp) h1]; decide
+
 /-- the torus with all dimensions ≥ 3 is `2k`-regular (what the documentation of `torus` promises):
 every neighbour row has `2k` entries, `degree(v)` answers `2k` -/
 theorem torus_regular (ds : List Nat) (hne : ds ≠ []) (h3 : ∀ d ∈ ds, 3 ≤ d) :
@@ -131,6 +137,8 @@ theorem torus_edge_count (ds : List Nat) (h3 : ∀ d ∈ ds, 3 ≤ d) : gridEdge
     simp only [gridEdgeCount, lineEdges, hd, and_self, ↓reduceIte, ih (fun x hx => h3 x (by simp [hx])), prodL,
       List.length_cons]
     ring
+
+example : gridEdgeCount true [3, 4, 5] = 3 * 60 := torus_edge_count [3, 4, 5] (by intro d hd; simp at hd; omega)
 
 /-- `torus` with a dimension equal to 1 (all dimensions positive): networkx's cycle on one node is a
 self-loop, `Graph.add_edge` refuses it — `ValueError`, a clean refusal -/
@@ -247,6 +255,9 @@ theorem gnp_accepts (n : Nat) (pn : Int) (pd : Nat) (h0 : 0 < pn) (h1 : pn < pd)
 example : ∃ S, gnpSimple 3 1 2 [.unit 0, .unit (unitDen - 1), .unit 5] = .ok (.ok S) [] ∧ S.m = 2 := by
   refine ⟨_, rfl, ?_⟩; decide
 
+example : ∃ r, gnpSimple 3 1 2 ([0, unitDen - 1, 5].map NxDraw.unit ++ [.choice 1]) = .ok r [.choice 1] :=
+  gnp_accepts 3 1 2 (by decide) (by decide) [0, unitDen - 1, 5] [.choice 1] (by decide) (by decide)
+
 /-- `p ≥ 1`: the complete graph, no draw -/
 theorem gnp_one (n : Nat) (pn : Int) (pd : Nat) (h : (pd : Int) ≤ pn) (ds : List NxDraw) :
     ∃ S, gnpSimple n pn pd ds = .ok (.ok S) ds ∧ S.n = n ∧ SimpleG.Inv S ∧ 2 * S.m = n * (n - 1) ∧
@@ -255,6 +266,10 @@ theorem gnp_one (n : Nat) (pn : Int) (pd : Nat) (h : (pd : Int) ≤ pn) (ds : Li
   refine ⟨S, ?_, s2, s3, by rw [s5]; exact completeGraph_edges_length n, ?_⟩
   · unfold gnpSimple gnpGraph; rw [if_pos h]; simp only; rw [s1]
   · intro u v; rw [s4, completeGraph_E]; omega
+
+example : ∃ S, gnpSimple 4 1 1 [] = .ok (.ok S) [] ∧ 2 * S.m = 12 := by
+  obtain ⟨S, h1, _, _, h4, _⟩ := gnp_one 4 1 1 (by decide) []
+  exact ⟨S, h1, h4⟩
 
 /-- `p ≤ 0`: the empty graph, no draw -/
 theorem gnp_zero (n : Nat) (pn : Int) (pd : Nat) (h0 : pn ≤ 0) (hd : 0 < pd) (ds : List NxDraw) :
@@ -267,6 +282,10 @@ theorem gnp_zero (n : Nat) (pn : Int) (pd : Nat) (h0 : pn ≤ 0) (hd : 0 < pd) (
   have h2 : NxG.edges ⟨(emptyGraph n).n, []⟩ = [] := emptyGraph_edges n
   rw [this, h2]
   rfl
+
+example : ∃ S, gnpSimple 4 0 1 [.unit 3] = .ok (.ok S) [.unit 3] ∧ S.m = 0 := by
+  obtain ⟨S, h1, _, h3, _⟩ := gnp_zero 4 0 1 (by decide) (by decide) [.unit 3]
+  exact ⟨S, h1, h3⟩
 
 /-! ## T-C15.N4 gnm -/
 
